@@ -292,3 +292,8 @@ MUTANTS += [
      "edits": [(PA, "        return datetime.now(tz=self.timestamp.tzinfo) > self.timestamp + self.ttl",
                     "        return datetime.now(tz=self.timestamp.tzinfo) > self.timestamp + timedelta(seconds=self.ttl.seconds, microseconds=self.ttl.microseconds)")]},
 ]
+MUTANTS += [
+    {"name": "c20-idle-worker-leaves-server-open", "checks": ["C20"],
+     "edits": [("repid/worker.py", "            if self.health_check_server is not None:  # pragma: no cover\n                await self.health_check_server.stop()\n            return runner",
+                                    "            return runner")]},
+]
